@@ -278,4 +278,17 @@ CHECKS = {
              "checks": {"quick": 2500, "thorough": 30000}, "shards": {"quick": 4, "thorough": 16}},
         ],
     },
+    "C11": {
+        "level_text": "Stateful exploration of the real MultiClientConn fed by the real mux manager/provider with real yamux and a real gRPC server behind every session, in virtual time: exact state equality (dialable set == registered set) after every update and behavioural fail-over / unavailability / resumption bounds.",
+        "technique": "stateful property-based testing with rapid in virtual time (testing/synctest); state-equality and RPC-outcome oracle",
+        "level": "exploration",
+        "assumptions": [
+            "behavioural bounds: a call issued >=20 virtual seconds after the last session change succeeds iff a session is registered (gRPC's reconnect back-off is 1 s base, capped at 10 s by the proxy's dial options); calls during churn may fail",
+            "in-flight RPCs on a dying session may fail; only the serving session's membership in the registered set is asserted for successful calls",
+        ],
+        "parts": [
+            {"name": "rapid", "pkg": "transport/grpcutil", "run": "^TestVF_C11_Rapid$",
+             "checks": {"quick": 700, "thorough": 8000}, "shards": {"quick": 4, "thorough": 16}},
+        ],
+    },
 }
